@@ -166,6 +166,134 @@ pub fn guarded<T>(prop: &str, f: impl FnOnce() -> T) -> Result<T, Failure> {
     }
 }
 
+
+// ------------------------------------------------------------------------------------------
+// per-case non-termination watchdog
+//
+// A changed bourse can loop forever (and allocate without bound) inside one call; the oracle then never
+// gets to look and the process would be killed by the OOM killer without a verdict. Every worker thread
+// publishes the case it is executing; a monitor thread reads the workers' CPU time from /proc and the
+// process's resident size. A case that has consumed more CPU time than `hang_limit_s` (ordinary cases
+// take micro- to milliseconds), or is running while the process has grown beyond `RSS_LIMIT`, is written
+// out as a replay file and re-executed in a child process under the same limits. Only if the child
+// confirms (it does not terminate either, or fails an oracle) is a violation reported; otherwise the run
+// is inconclusive (exit 2). CPU time, not wall time, so a loaded machine cannot trigger it.
+
+pub struct Slot<C> {
+    tid: u64,
+    counter: AtomicU64,
+    case: Mutex<Option<std::sync::Arc<C>>>,
+}
+
+pub type Slots<C> = std::sync::Arc<Mutex<Vec<std::sync::Arc<Slot<C>>>>>;
+
+fn own_tid() -> u64 {
+    std::fs::read_to_string("/proc/thread-self/stat").ok().and_then(|s| s.split_whitespace().next().and_then(|x| x.parse().ok())).unwrap_or(0)
+}
+
+/// user + system CPU time of a thread of this process, in clock ticks (USER_HZ = 100 on Linux)
+fn thread_cpu_ticks(tid: u64) -> Option<u64> {
+    let s = std::fs::read_to_string(format!("/proc/self/task/{}/stat", tid)).ok()?;
+    // fields after the parenthesised command name
+    let rest = s.rsplit_once(')')?.1;
+    let f: Vec<&str> = rest.split_whitespace().collect();
+    // rest starts at field 3 (state): utime = field 14, stime = field 15
+    Some(f.get(11)?.parse::<u64>().ok()? + f.get(12)?.parse::<u64>().ok()?)
+}
+
+fn rss_bytes() -> u64 {
+    std::fs::read_to_string("/proc/self/statm").ok().and_then(|s| s.split_whitespace().nth(1).and_then(|x| x.parse::<u64>().ok())).map(|p| p * 4096).unwrap_or(0)
+}
+
+const RSS_LIMIT: u64 = 10 << 30;
+
+fn register_slot<C>(slots: &Slots<C>) -> std::sync::Arc<Slot<C>> {
+    let s = std::sync::Arc::new(Slot { tid: own_tid(), counter: AtomicU64::new(0), case: Mutex::new(None) });
+    slots.lock().unwrap().push(s.clone());
+    s
+}
+
+fn run_in_slot<C>(slot: &Slot<C>, case: std::sync::Arc<C>, run: &(dyn Fn(&C) -> Outcome + Sync)) -> Outcome {
+    *slot.case.lock().unwrap() = Some(case.clone());
+    slot.counter.fetch_add(1, Ordering::SeqCst);
+    let o = run(&case);
+    *slot.case.lock().unwrap() = None;
+    slot.counter.fetch_add(1, Ordering::SeqCst);
+    o
+}
+
+fn spawn_hang_monitor<C>(id: &'static str, tier: Tier, limit_s: u64, slots: Slots<C>, done: std::sync::Arc<AtomicBool>)
+where
+    C: Serialize + Send + Sync + 'static,
+{
+    std::thread::spawn(move || {
+        // per tid: (counter value, cpu ticks when that value was first seen)
+        let mut seen: BTreeMap<u64, (u64, u64)> = BTreeMap::new();
+        loop {
+            std::thread::sleep(std::time::Duration::from_millis(250));
+            if done.load(Ordering::Relaxed) {
+                return;
+            }
+            let rss = rss_bytes();
+            let list: Vec<std::sync::Arc<Slot<C>>> = slots.lock().unwrap().clone();
+            let mut worst: Option<(u64, std::sync::Arc<Slot<C>>)> = None;
+            for sl in list.iter() {
+                let c = sl.counter.load(Ordering::SeqCst);
+                let Some(cpu) = thread_cpu_ticks(sl.tid) else { continue };
+                let e = seen.entry(sl.tid).or_insert((c, cpu));
+                if e.0 != c {
+                    *e = (c, cpu);
+                    continue;
+                }
+                if c % 2 == 0 {
+                    continue; // between cases
+                }
+                let used = cpu.saturating_sub(e.1);
+                if worst.as_ref().map_or(true, |w| used > w.0) {
+                    worst = Some((used, sl.clone()));
+                }
+            }
+            let Some((used, sl)) = worst else { continue };
+            let over_cpu = used > limit_s * 100;
+            let over_mem = rss > RSS_LIMIT && used > 100;
+            if !(over_cpu || over_mem) {
+                continue;
+            }
+            let Some(case) = sl.case.lock().unwrap().clone() else { continue };
+            let why = if over_cpu { format!("one case has used {:.0} s of CPU time (limit {} s; ordinary cases take milliseconds)", used as f64 / 100.0, limit_s) } else { format!("the process grew to {} MiB while one case has been running for {:.0} s of CPU time", rss >> 20, used as f64 / 100.0) };
+            let f = Failure::new(id, &format!("{} an operation of the case does not terminate", id), format!("watchdog: {}", why));
+            let p = write_replay(id, "watchdog", &*case, &f);
+            eprintln!("note: {}; re-executing the case in a child process: {}", why, p.display());
+            // confirm in a child process (its own watchdog applies the same limits)
+            let exe = std::env::current_exe().unwrap_or_else(|_| PathBuf::from("verif"));
+            let out = std::process::Command::new(exe).arg("replay").arg(id).arg(&p).env("VERIF_ROOT", verif_root()).env("VERIF_HANG_LIMIT_S", format!("{}", limit_s)).output();
+            let code = out.as_ref().ok().and_then(|o| o.status.code());
+            let seed = verif_seed();
+            let write_ev = |violations: u64, note: &str| {
+                let ev = json!({"property_id": id, "tier": tier.name(), "seed": seed as i64, "level": "exploration",
+                    "coverage": {"evaluations": 0, "distinct_nontrivial": 0, "rule": "run ended by the per-case non-termination watchdog before statistics were collected", "samples": [serde_json::to_value(&*case).unwrap_or(Value::Null)], "exhaustive": false, "watchdog": note},
+                    "assumptions": [], "wall_s": 0.0, "violations": violations});
+                let evdir = verif_root().join("evidence");
+                let _ = std::fs::create_dir_all(&evdir);
+                let _ = std::fs::write(evdir.join(format!("{}.json", id)), serde_json::to_string_pretty(&ev).unwrap());
+            };
+            if code == Some(1) {
+                println!("VIOLATION property={} replay={}", id, p.display());
+                println!("  oracle: {}  signature: {}", f.prop, f.sig);
+                println!("  {} - confirmed by re-executing the saved case in a separate process", f.msg);
+                write_ev(1, &why);
+                cleanup_scratch();
+                std::process::exit(1);
+            }
+            let _ = std::fs::remove_file(&p);
+            println!("INCONCLUSIVE property={} {} but the saved case terminated normally in a separate process (child exit {:?})", id, why, code);
+            write_ev(0, &why);
+            cleanup_scratch();
+            std::process::exit(2);
+        }
+    });
+}
+
 // ------------------------------------------------------------------------------------------
 // known findings
 
@@ -232,6 +360,9 @@ pub struct CheckSpec<C> {
     /// optional extra shrinking applied to enumerated failures (and after proptest)
     pub simplify: Option<Box<dyn Fn(&C) -> Vec<C> + Sync>>,
     pub extra: Value,
+    /// CPU seconds one case may take before it is treated as non-terminating (None: no per-case limit -
+    /// checks whose cases are whole campaigns / simulations)
+    pub hang_limit_s: Option<u64>,
 }
 
 #[derive(Default)]
@@ -321,6 +452,14 @@ where
     let mut any_exhaustive = false;
     let mut any_random = false;
 
+    // per-case non-termination watchdog (see above)
+    let slots: Slots<C> = std::sync::Arc::new(Mutex::new(vec![]));
+    let all_done = std::sync::Arc::new(AtomicBool::new(false));
+    if let Some(h) = spec.hang_limit_s {
+        let h = std::env::var("VERIF_HANG_LIMIT_S").ok().and_then(|s| s.parse().ok()).unwrap_or(h);
+        spawn_hang_monitor(spec.id, spec.tier, h, slots.clone(), all_done.clone());
+    }
+
     // watchdog: never report slowness as a violation
     let limit_s: u64 = std::env::var("VERIF_WATCHDOG_S").ok().and_then(|s| s.parse().ok()).unwrap_or(spec.tier.pick(1500, 6 * 3600));
     {
@@ -348,6 +487,7 @@ where
     };
 
     // ---- replay tier
+    let main_slot = register_slot(&slots);
     let replay_dir = verif_root().join("replays").join(spec.id);
     let mut replayed = 0u64;
     if let Ok(rd) = std::fs::read_dir(&replay_dir) {
@@ -361,7 +501,8 @@ where
                 continue;
             };
             replayed += 1;
-            let o = (spec.run)(&case);
+            let case = std::sync::Arc::new(case);
+            let o = run_in_slot(&main_slot, case.clone(), &*spec.run);
             let mut st = stats.lock().unwrap();
             record(&mut st, &case, &o);
             if let Some(f) = o.result {
@@ -398,7 +539,9 @@ where
                         let is_known = &is_known;
                         let record = &record;
                         let name = part.name.clone();
+                        let slots = &slots;
                         s.spawn(move || {
+                            let slot = register_slot(slots);
                             let strat = make();
                             let mut sm = seed ^ 0x9E37_79B9_7F4A_7C15u64.wrapping_mul(1 + pi as u64 * 131 + th as u64);
                             sm = sm.wrapping_mul(0xBF58_476D_1CE4_E5B9).rotate_left(17) ^ (th as u64) << 40 ^ (pi as u64) << 52;
@@ -417,11 +560,13 @@ where
                                 if failing_sig.borrow().is_none() && stop.load(Ordering::Relaxed) {
                                     return Ok(());
                                 }
-                                let o = (spec.run)(&case);
+                                let case = std::sync::Arc::new(case);
+                                let o = run_in_slot(&slot, case.clone(), &*spec.run);
+                                let case: &C = &case;
                                 let shrinking = failing_sig.borrow().is_some();
                                 if !shrinking {
                                     let mut st = stats.lock().unwrap();
-                                    record(&mut st, &case, &o);
+                                    record(&mut st, case, &o);
                                     if let Some(f) = &o.result {
                                         if let Some(k) = is_known(&f.sig) {
                                             *st.known_hits.entry(k.sig.clone()).or_default() += 1;
@@ -478,7 +623,9 @@ where
                         let next = &next;
                         let skipped = &skipped;
                         let first_fail = &first_fail;
+                        let slots = &slots;
                         s.spawn(move || {
+                            let slot = register_slot(slots);
                             let mut local = Stats::default();
                             loop {
                                 let a = next.fetch_add(chunk, Ordering::Relaxed);
@@ -495,7 +642,8 @@ where
                                         skipped.fetch_add(1, Ordering::Relaxed);
                                         continue;
                                     };
-                                    let o = (spec.run)(&case);
+                                    let case = std::sync::Arc::new(case);
+                                    let o = run_in_slot(&slot, case.clone(), &*spec.run);
                                     record(&mut local, &case, &o);
                                     if let Some(f) = o.result {
                                         if let Some(k) = is_known(&f.sig) {
@@ -504,7 +652,7 @@ where
                                         }
                                         let mut ff = first_fail.lock().unwrap();
                                         if ff.as_ref().map_or(true, |x| i < x.0) {
-                                            *ff = Some((i, case, f));
+                                            *ff = Some((i, (*case).clone(), f));
                                         }
                                         break;
                                     }
@@ -546,6 +694,7 @@ where
     }
 
     // ---- report
+    all_done.store(true, Ordering::Relaxed);
     let st = stats.into_inner().unwrap();
     let violations = violations.into_inner().unwrap();
     let mut known_report = serde_json::Map::new();
@@ -619,9 +768,9 @@ where
 }
 
 /// Plain regression run of one replay file, bypassing every generator library.
-pub fn replay_one<C>(id: &str, path: &str, run: impl Fn(&C) -> Outcome) -> i32
+pub fn replay_one<C>(id: &str, path: &str, run: impl Fn(&C) -> Outcome + Sync) -> i32
 where
-    C: DeserializeOwned + std::fmt::Debug,
+    C: DeserializeOwned + std::fmt::Debug + Sync,
 {
     install_panic_hook();
     let text = match std::fs::read_to_string(path) {
@@ -645,7 +794,33 @@ where
             return 2;
         }
     };
-    let o = run(&case);
+    // run the case on a worker thread under the same non-termination limits as the checks
+    let limit_s: u64 = std::env::var("VERIF_HANG_LIMIT_S").ok().and_then(|s| s.parse().ok()).unwrap_or(20);
+    let tid_cell = AtomicU64::new(0);
+    let o = std::thread::scope(|s| {
+        let h = s.spawn(|| {
+            tid_cell.store(own_tid(), Ordering::SeqCst);
+            run(&case)
+        });
+        loop {
+            if h.is_finished() {
+                match h.join() {
+                    Ok(o) => return o,
+                    Err(e) => std::panic::resume_unwind(e),
+                }
+            }
+            std::thread::sleep(std::time::Duration::from_millis(100));
+            let tid = tid_cell.load(Ordering::SeqCst);
+            let cpu = if tid != 0 { thread_cpu_ticks(tid).unwrap_or(0) } else { 0 };
+            let rss = rss_bytes();
+            if cpu > limit_s * 100 || (rss > RSS_LIMIT && cpu > 100) {
+                println!("VIOLATION property={} replay={}", id, path);
+                println!("  oracle: {}  signature: {} an operation of the case does not terminate", id, id);
+                println!("  the case has used {:.0} s of CPU time and {} MiB without finishing (ordinary cases take milliseconds)", cpu as f64 / 100.0, rss >> 20);
+                std::process::exit(1);
+            }
+        }
+    });
     match o.result {
         None => {
             println!("replay {}: property {} held", path, id);
